@@ -69,7 +69,7 @@ def check(ctx, only=None, list_only=False):
     meta = {
         "functions_encoded": ["every public entry point of vec_znx_arithmetic.h (coefficient space, big, dft/idft, svp, vmp, small product; fft64 and ntt120)",
                               "q120 product kernels", "reim/reim4/cplx pointwise kernels, reim4 dot products and convolution"],
-        "bounds": "shapes from the C08/C11 boxes (limb counts 0..3 in both orderings, nrows/ncols to 3x4 and 1x5, N in {4,8} (16 thorough)), both cpu flags, both module types; "
+        "bounds": "every DFT-space entry point additionally with all buffers carved back to back out of one arena (forward and reverse order, N=8 / N=4 ntt120); shapes from the C08/C11 boxes (limb counts 0..3 in both orderings, nrows/ncols to 3x4 and 1x5, N in {4,8} (16 thorough)), both cpu flags, both module types; "
                   "snapshots cover the whole allocation of every source incl. stride padding, the MODULE, its virtual table and the precomputed objects",
         "outside": "a source that is used as scratch and restored to exactly its previous contents on every path is indistinguishable from an unmodified one in a sequential "
                    "run (the property allows it sequentially; concurrently it is C12's concern)",
